@@ -114,6 +114,22 @@ class SymbolTable(object):
         return self.domain.find_symbol(name)
 
 
+class InstanceSymbolTable(SymbolTable):
+    '''
+    Symbol table of an instance-based action, where the name *self* (in any
+    letter case) refers to the instance the action is invoked on.
+    '''
+    def __init__(self, domain, instance):
+        SymbolTable.__init__(self, domain)
+        self.instance = instance
+    
+    def find_symbol(self, name, default=None):
+        if name.lower() == 'self':
+            return self.instance
+        
+        return SymbolTable.find_symbol(self, name, default)
+
+
 class ReturnException(Exception):
     pass
 
@@ -498,6 +514,7 @@ class OperationWalker(ActionWalker):
         self.kwargs = kwargs
         self.instance = instance
         ActionWalker.__init__(self, domain)
+        self.symtab = InstanceSymbolTable(domain, instance)
 
     def accept_ParamAccessNode(self, node):
         value = self.kwargs[node.variable_name]
@@ -524,6 +541,7 @@ class DerivedAttributeWalker(ActionWalker):
         self.attribute_name = attribute_name
         self.instance = instance
         ActionWalker.__init__(self, domain)
+        self.symtab = InstanceSymbolTable(domain, instance)
 
     def accept_SelfAccessNode(self, node):
         return property(lambda: self.instance)
